@@ -13,6 +13,7 @@ the item, so that reference is the caller's).
 import Gkv.Proofs.Refs
 import Gkv.Proofs.VersionsLeak
 import Gkv.Gen.SlotCopies
+import Gkv.Gen.Sites
 open Std
 
 namespace Gkv.Props.C15
@@ -91,5 +92,54 @@ theorem slots_loaded_before_copied :
        ("Store.split", "nNode.left", true), ("Store.split", "nNode.left", true),
        ("Store.split", "nNode.right", true), ("Store.split", "nNode.right", true)] ∧
     Gen.SlotCopies.numInfoReads = 2 := by decide
+
+/-! ### the event kinds of `Model/Refs.lean` are all the places where the code counts (regenerated table)
+
+`Model/Refs.lean` claims one event kind per place where the package takes or drops an item
+reference.  `Gen/Sites.lean` is rewritten from /repo on every run and lists EVERY call of
+`ItemAddRef`, `ItemDecRef` and `ItemAlloc` in the package (enclosing function, callee, argument).
+The reviewed reading of each row, i.e. the event of the model it is:
+
+* `mkNode` AddRef(i), `SetItem` AddRef(item) ............ `Ev.mkNode`
+* `freeNodeUnlocked` DecRef(i) .......................... `Ev.freeNode`
+* `itemLoc.read` ItemAlloc, DecRef(icur) ............... `Ev.load` (new item; the older cached copy)
+* `itemLoc.read` six DecRef(i) ......................... the freshly allocated item is dropped on
+                                                          each error path and when the casItem race
+                                                          is lost (alloc + dec: net zero, no event)
+* `evictSomeItems` DecRef(j), DecRef(i); `visitNodes` .. `Ev.evict`
+* `GetItem` AddRef(iItem), `walk` AddRef(i) ............. `Ev.handOut`
+* `Delete`, `Exist`, `Len`, both block visitors, `CopyTo` `Ev.giveBack` (the package as its own caller)
+* `Store.ItemAddRef/ItemDecRef/ItemAlloc` ............... the dispatch wrappers themselves
+
+A change that counts somewhere else, or stops counting at one of these places (seeded changes
+C15, C15c, C15h), moves a row and refutes this statement. -/
+theorem every_counting_site_is_an_event :
+    Gen.Sites.refSites = [
+  ("Collection.Delete", "ItemDecRef", "i"),
+  ("Collection.Exist", "ItemDecRef", "val"),
+  ("Collection.GetItem", "ItemAddRef", "iItem"),
+  ("Collection.Len", "ItemDecRef", "si"),
+  ("Collection.SetItem", "ItemAddRef", "item"),
+  ("Collection.VisitItemsAscendBlockEx", "ItemDecRef", "si"),
+  ("Collection.VisitItemsRandom", "ItemDecRef", "si"),
+  ("Collection.evictSomeItems", "ItemDecRef", "j"),
+  ("Collection.evictSomeItems", "ItemDecRef", "i"),
+  ("Collection.freeNodeUnlocked", "ItemDecRef", "i"),
+  ("Collection.mkNode", "ItemAddRef", "i"),
+  ("Store.CopyTo", "ItemDecRef", "minItem"),
+  ("Store.ItemAddRef", "ItemAddRef", "i"),
+  ("Store.ItemAlloc", "ItemAlloc", "keyLength"),
+  ("Store.ItemDecRef", "ItemDecRef", "i"),
+  ("Store.visitNodes", "ItemDecRef", "i"),
+  ("Store.walk", "ItemAddRef", "i"),
+  ("itemLoc.read", "ItemAlloc", "uint32(keyLength)"),
+  ("itemLoc.read", "ItemDecRef", "i"),
+  ("itemLoc.read", "ItemDecRef", "i"),
+  ("itemLoc.read", "ItemDecRef", "i"),
+  ("itemLoc.read", "ItemDecRef", "i"),
+  ("itemLoc.read", "ItemDecRef", "i"),
+  ("itemLoc.read", "ItemDecRef", "i"),
+  ("itemLoc.read", "ItemDecRef", "icur")
+    ] := by decide +kernel
 
 end Gkv.Props.C15
